@@ -23,6 +23,10 @@ CLAIMED = {
    technique="TLC model checking of the Laws configuration (all triples, 15 laws as equality of returned values) + law scripts replayed on real objects (B1) and recorded law sessions validated by TLC (B3)",
    text=IA + "Laws configuration: every triple of values over N=2 bounds, 15 laws, both sides equal under the modelled __eq__ and hash; on the real library the same laws are evaluated on sampled triples of the TLC-enumerated N=3 values under two embeddings, and law sessions over arbitrary version shapes are validated by TLC (clause law sides == in both directions).",
    note="Oracle-free: the law itself decides. Marker half is served by the marker engine once registered."),
+ "C19": dict(engine="generic", category="model_checking", design_ref="5/C19",
+   technique="TLC model checking of GenericSpec (complete literal pool) + exhaustive transition replay into GenericSpecifier with membership of every candidate through `in`",
+   text="TLA+ spec GenericSpec transcribes the sorted-operator case table of GenericSpecifier.__and__/__or__/__invert__ over literals that are letter sequences (so equal/substring/superstring/disjoint/empty relations are computed); TLC checks Exact (answer denotes the intersection/union/complement wherever the table answers) over all 3600 ordered pairs; every dumped transition is executed on the real class under three fragment renderings and the membership of all 31 candidates through `in` (also on returned Empty/Any specifiers) is compared with the specification's exact set.",
+   note="Pool: literals of length<=3 over two letters, candidates length<=4; complete within the pool. A real NotImplementedError where the table answers is allowed by the statement and only counted as drift."),
 }
 
 def cmd(pid, tier): return f"./check {pid} --tier {tier}"
@@ -39,6 +43,7 @@ na = [{"property_id": p, "reason": NA_REASON.get(p, "engine not built yet in thi
 engines = [
  {"name": "interval", "path": "harness/check_interval.py + specs/IntervalOps.tla, IntervalAlgebra.tla, SpecSessionTrace.tla", "serves_properties": ["C01", "C05", "C13", "C14"],
   "kind_free_text": "TLC model checking + spec->code transition replay + code->spec trace validation"},
+ {"name": "generic", "path": "harness/check_generic.py + specs/GenericSpec.tla", "serves_properties": ["C19"], "kind_free_text": "TLC model checking + exhaustive transition replay"},
 ]
 m = {"version": 1, "setup_cmd": "./setup.sh",
      "hooks": {"guard": "DEP_LOGIC_VERIF", "enable": "no source hooks are needed: the abstract state is observed through the public API; checks import dep_logic from /repo/src of the current working tree (PYTHONPATH), so no rebuild step exists",
